@@ -847,7 +847,22 @@ pub fn critical_positions(args: &Args) -> i32 {
                     }
                 }
                 if is_realised { realised += 1; }
-                let o = check_stream(&s, None, &mut rng);
+                let mut o = check_stream(&s, None, &mut rng);
+                // the same stream on a thread with a small stack (128 KiB: the default of some C
+                // libraries for threads, and what a host may give the threads that call into the
+                // library), in a child process because a stack overflow takes the process down
+                if neighbour == 0 && level == 9 {
+                    let r = isolated(2 << 30, 20, || {
+                        let h = std::thread::Builder::new().stack_size(128 << 10).spawn({
+                            let s = s.clone();
+                            move || { let _ = guarded(|| preflate_rs::decompress_deflate_stream(&s, true, 0).is_ok()); }
+                        });
+                        match h { Ok(h) => { let _ = h.join(); vec![1u8] } Err(_) => vec![2u8] }
+                    });
+                    if let Err(how) = r {
+                        o.viol.push(Viol { prop: "C05", sig: "small-stack".into(), why: format!("on a thread with 128 KiB of stack the call did not return: the process running it was {}", how) });
+                    }
+                }
                 let id = format!("p{}", k);
                 k += 1;
                 let mut j = outcome_json(&id, &format!("critical-position/{}/zlib:l{}", p, level), &s, &o, !o.viol.is_empty());
